@@ -167,7 +167,28 @@ func rkResolvers(w *World) {
 			ok := false
 			if oc, isCall := o.(*ast.CallExpr); isCall && len(oc.Args) == 1 {
 				if sel, isSel := ast.Unparen(oc.Fun).(*ast.SelectorExpr); isSel && sel.Sel.Name == "FindImportByPath" {
-					if pc, isPC := ast.Unparen(oc.Args[0]).(*ast.CallExpr); isPC {
+					arg := ast.Unparen(oc.Args[0])
+					// the path may have been hoisted into a local: `path := imp.Path()`
+					if aid, isID := arg.(*ast.Ident); isID && info.Uses[aid] != nil {
+						nDef := 0
+						ast.Inspect(body, func(y ast.Node) bool {
+							as, isAs := y.(*ast.AssignStmt)
+							if !isAs || len(as.Lhs) != len(as.Rhs) {
+								return true
+							}
+							for i, l := range as.Lhs {
+								if lid, isL := l.(*ast.Ident); isL && (info.Defs[lid] == info.Uses[aid] || info.Uses[lid] == info.Uses[aid]) {
+									nDef++
+									arg = ast.Unparen(as.Rhs[i])
+								}
+							}
+							return true
+						})
+						if nDef != 1 {
+							arg = aid
+						}
+					}
+					if pc, isPC := arg.(*ast.CallExpr); isPC {
 						if ps, isPS := ast.Unparen(pc.Fun).(*ast.SelectorExpr); isPS && ps.Sel.Name == "Path" {
 							ok = true
 						}
